@@ -43,16 +43,19 @@ func upperFirst(s string) string {
 
 // AddFile merges the defaults of one parsed IDL file.
 func (d *Defaults) AddFile(f *IDLFile) {
+	// enum members and constants live in the namespace of their module
 	for _, e := range f.Enums {
+		m := strings.ToLower(e.Module)
 		for n, v := range e.Members {
-			d.enums[n] = v
-			d.enums[e.Module+"::"+n] = v
-			d.enums[e.Name+"::"+n] = v
+			d.enums[m+"::"+n] = v
 		}
 	}
-	for n, v := range f.Consts {
-		if x, err := strconv.ParseInt(v, 0, 64); err == nil {
-			d.enums[n] = x
+	for _, s := range f.Structs {
+		m := strings.ToLower(s.Module)
+		for n, v := range f.Consts {
+			if x, err := strconv.ParseInt(v, 0, 64); err == nil {
+				d.enums[m+"::"+n] = x
+			}
 		}
 	}
 	for _, s := range f.Structs {
@@ -154,7 +157,7 @@ func (d *Defaults) StructOf(t reflect.Type, seen map[reflect.Type]*rc.Struct) (*
 		}
 		fld.T = ft
 		if lit, ok := d.lit[strings.ToLower(path.Base(t.PkgPath()))+"."+t.Name()+"."+fld.Name]; ok {
-			v, err := d.literal(ft, lit)
+			v, err := d.literal(ft, lit, strings.ToLower(path.Base(t.PkgPath())))
 			if err != nil {
 				return nil, fmt.Errorf("%s.%s default %q: %v", t.Name(), fld.Name, lit, err)
 			}
@@ -171,7 +174,7 @@ func (d *Defaults) StructOf(t reflect.Type, seen map[reflect.Type]*rc.Struct) (*
 	return s, nil
 }
 
-func (d *Defaults) literal(t *rc.Type, lit string) (*rc.Value, error) {
+func (d *Defaults) literal(t *rc.Type, lit string, module string) (*rc.Value, error) {
 	switch t.Kind {
 	case rc.KBool:
 		if lit == "true" {
@@ -187,7 +190,12 @@ func (d *Defaults) literal(t *rc.Type, lit string) (*rc.Value, error) {
 		if n, err := strconv.ParseUint(lit, 0, 64); err == nil {
 			return &rc.Value{I: int64(n)}, nil
 		}
-		if v, ok := d.enums[lit]; ok {
+		// MEMBER (own module) or Module::MEMBER
+		key := module + "::" + lit
+		if i := strings.Index(lit, "::"); i >= 0 {
+			key = strings.ToLower(lit[:i]) + lit[i:]
+		}
+		if v, ok := d.enums[key]; ok {
 			return &rc.Value{I: v}, nil
 		}
 	case rc.KFloat:
